@@ -20,7 +20,7 @@ THEOREMS = {
     'C19_words': 'no word is split, lost, duplicated or altered: the words of s are the words of the lines, line after line; also on the returned string',
     'C19_indent': 'every continuation line starts with the indent (un-stripped lines); an emitted continuation line starts with the indent or is a prefix of it (empty for a white-space indent)',
     'C19_width': 'a yielded line longer than width has no white space at any position p with |indent| < p <= width; a line that has such a legal break position has length <= width (also for the emitted, stripped lines)',
-    'C19_greedy': 'lines are as long as possible (docstring): after a break at the end of line l the next white space (or the end of the string) lies beyond width',
+    'C19_greedy': 'lines are as long as possible (docstring): a break falls on a white-space position behind the indent, and the next white space (or the end of the string) after it lies beyond width',
     'C19_rstrip': 'the returned string is the "\\n"-join of the lines with only trailing white space removed; no emitted line ends in white space',
     'C19_short_identity': '|s| <= width => a single line (none for the empty string) and wrap(s) = rstrip(s)',
     'C19_terminates': 'iter_lines terminates (well-founded definition; the decrease is |indent| < break_pos < |s|): at most |s| + 1 lines',
@@ -194,6 +194,7 @@ def clauses(text, width, indent, out):
     # sequential reconstruction: text = e0 t0 c1 body1 t1 c2 body2 ... with white-space t_i, c_i
     pos = 0          # prefix of the text accounted for
     pending = 0      # line breaks since the last matched body: each one replaced one white-space character
+    prev_len = None  # length of the last non-blank emitted line (its body ends at text[pos])
     ok = True
     for k, e in enumerate(lines):
         if k > 0:
@@ -220,8 +221,16 @@ def clauses(text, width, indent, out):
             fails.append('content: line %d: text continues with %r but the line holds %r' % (k, text[start:start + len(body)][:40], body[:40]))
             ok = False
             break
+        if pending == 1 and prev_len is not None:
+            # exactly one break between two non-blank lines: it replaced the character at this column
+            col = prev_len + (start - pos) - 1
+            if col <= n:
+                fails.append('legal_break: line %d was broken at column %d, inside the indent region (<= %d)' % (k - 1, col, n))
+            if j > 0 and col + 1 <= width:
+                fails.append('greedy: line %d was broken at column %d although the white space at column %d is within width %d' % (k - 1, col, col + 1, width))
         pos = start + len(body)
         pending = 0
+        prev_len = len(e)
         if k < len(lines) - 1:
             # greedy: the next white space (or the end) after the gap lies beyond the width
             b = pos
@@ -454,11 +463,11 @@ def gen_cases(tier, rng, info):
     _check_ws_table()
     cases = [{'op': 'wrap', 'family': 'doctest', 'text': t, 'width': w, 'indent': '  '} for t, w in DOCTESTS]
     widths = list(range(3, 13))
-    if tier == 'quick':
-        ex = _exhaustive(4, 6, (0, 1, 2), (0, 1), widths)
-        scope_n = 4
-    else:
-        ex = _exhaustive(5, 6, (0, 1, 2), (0, 1), widths)
+    ex = _exhaustive(4, 6, (0, 1, 2), (0, 1), widths)
+    scope_n = 4
+    if tier != 'quick':
+        seen = {c['text'] for c in ex}
+        ex += [c for c in _exhaustive(5, 6, (0, 1, 2), (0,), widths) if c['text'] not in seen]
         scope_n = 5
     cases += ex
     # small alphabets of indents and widths around the indent on the short profiles
@@ -469,13 +478,13 @@ def gen_cases(tier, rng, info):
     bd = _boundary(tier)
     cases += bd
     info['exhaustive'] = True
-    info['scope'] = ('every text made of 0..%d words with lengths 1..6, gaps of 1-2 blanks, 0-2 leading blanks, 0-1 trailing blank '
+    info['scope'] = ('every text made of 0..%d words with lengths 1..6, gaps of 1-2 blanks, 0-2 leading blanks, 0-1 trailing blank (no trailing blank for 5 words) '
                      '(%d texts) at every width 3..12 with indent "  " (%d wrap calls); every text of 0..3 words with lengths 1..4, gaps 1-2, '
                      '0-1 leading blanks at every width -1..6 for the indents "", " ", "\\t ", "   ", "> " (%d wrap calls); boundary sweep at '
                      'width 79: %d texts (two words 70..90 x 70..90, three words %s, continuation-line boundary, runs of short words); '
                      'doctest examples') % (scope_n, len(ex), len(ex) * len(widths), len(small) * 5 * 8, len(bd),
                                             '75..82 each' if tier == 'quick' else '70..90 each')
-    nrand = 6000 if tier == 'quick' else 150000
+    nrand = 6000 if tier == 'quick' else 100000
     for _ in range(nrand):
         cases.append(_random_case(rng))
     return cases
